@@ -1,6 +1,6 @@
 use super::{Error, ShapeType};
 
-use crate::record::BBoxZ;
+use crate::record::{BBoxZ, PointZ};
 use byteorder::{BigEndian, LittleEndian, ReadBytesExt, WriteBytesExt};
 use std::io::{Read, Write};
 
@@ -30,7 +30,11 @@ pub struct Header {
 impl Default for Header {
     fn default() -> Self {
         Header {
-            bbox: BBoxZ::default(),
+            // all ranges are 0 (PointZ::default() has m = NO_DATA)
+            bbox: BBoxZ {
+                max: PointZ::new(0.0, 0.0, 0.0, 0.0),
+                min: PointZ::new(0.0, 0.0, 0.0, 0.0),
+            },
             shape_type: ShapeType::NullShape,
             file_length: HEADER_SIZE / 2,
             version: 1000,
